@@ -2,7 +2,7 @@
    map to the OCaml types; Z, N, positive, nat stay the extracted Coq datatypes.  No Extract Constant. *)
 From Coq Require Extraction ExtrOcamlBasic.
 From Sonic Require Import Base.Prelude Gen.Consts Gen.Preds Gen.BipBuffer Gen.Mirrored Gen.Slot.
-From Sonic Require Import Model.BipMem Spec.ByteQueue Model.MirrorMem Spec.Ring Model.ByteBuffer Spec.ThreeFifo.
+From Sonic Require Import Model.BipMem Spec.ByteQueue Model.MirrorMem Spec.Ring Model.ByteBuffer Spec.ThreeFifo Model.Slots Spec.ParkedMap.
 Extraction Language OCaml.
 Extraction "model.ml"
   BipMem.binit BipMem.bstep BipMem.bobserve BipMem.babs
@@ -10,4 +10,5 @@ Extraction "model.ml"
   MirrorMem.minit MirrorMem.mstep MirrorMem.mobserve MirrorMem.mabs Mirrored.MirroredBuffer_new
   Ring.rinit Ring.rstep Ring.size_ok
   ByteBuffer.bb_init ByteBuffer.bbstep ThreeFifo.tf_init ThreeFifo.tfcheck ThreeFifo.observe
+  Slots.sq_init Slots.sqstep Slots.sq_observe Slots.fw_add Slots.fw_sum_until Slots.fw_new ParkedMap.pm_init ParkedMap.pmcheck
   Z.of_nat Z.to_nat Z.add Z.mul Z.sub Z.div Z.modulo Z.eqb Z.ltb Z.leb Z.opp Z.abs Z.compare Z.div_eucl.
